@@ -1,5 +1,6 @@
 import Driver.Proto
 import TonicModel.Model.Shutdown
+import TonicModel.Model.ShutdownBurst
 import TonicModel.Spec.Shutdown
 /-
 C13 driver.  A case is a scenario script (see harness/src/c13.rs for the grammar); the model side
@@ -15,6 +16,12 @@ least `max_connection_age` ago gets its `ageTick`, every call whose handler was 
 `Server::timeout` (`t<secs>` in the case's configuration) ago its `deadlineTick`; `expire` is then
 one of the server's own steps (tried after `produce`: `GrpcTimeout` polls the handler first).
 
+A burst `K<n>[:<j>]` is `n` offers at one instant; with `:<j>` the harness's `incoming` stream fires
+the shutdown signal at the very instant it hands the j-th connection of the burst to the accept
+loop, so the model side executes the schedule `Shutdown.burstLabels`: the offers, the accept loop
+handed the queued connections in order up to that one, then `sigFire` - and what happens to the rest
+of the backlog is the model's prediction (no oracle is involved in a quiescent burst step).
+
 The verdict is computed from the script and the observation alone, with `Spec.Shutdown`; whether a
 call's true outcome is the server's "Timeout expired" (`CallView.timedOut`) is decided from the time
 steps between the call's issue and the release of its first handler phase.
@@ -24,6 +31,9 @@ open Proto Shutdown
 
 inductive Op where
   | conn | connStalled | connBad | hello (c : Nat)
+  /-- `n` connections ready on `incoming` at the same instant; `j > 0`: the shutdown signal fires
+  when the j-th of them is handed to the accept loop -/
+  | burst (n j : Nat)
   | unary (c s : Nat) | stream (c n s : Nat)
   | cstream (c m s : Nat) | bidi (c m n s : Nat) | reqMsg (k : Nat)
   | adv (k : Nat) | sig | endInc | accErr
@@ -48,6 +58,16 @@ def parseOp (body : List Char) : Option Op :=
   | ['H'] => some .connStalled
   | ['H', 'b'] => some .connBad
   | 'h' :: rest => (natOf rest).map .hello
+  | 'K' :: rest =>
+    match splitColon rest with
+    | [n] => do
+      let n ← natOf n
+      if n = 0 ∨ n > 8 then none else some (.burst n 0)
+    | [n, j] => do
+      let n ← natOf n
+      let j ← natOf j
+      if n = 0 ∨ n > 8 ∨ j = 0 ∨ j > n then none else some (.burst n j)
+    | _ => none
   | ['G'] => some .sig
   | ['E'] => some .endInc
   | ['T'] => some (.wait ageLimit)
@@ -135,6 +155,11 @@ def parseScript (case : List String) : Option Script :=
       -- stalled / non-TLS clients only make sense against a TLS server
       else if !tls && steps.any (fun st => match st.op with
           | .connStalled | .connBad | .hello _ => true | _ => false) then none
+      -- bursts: in-memory plain connections only; a burst wired to the signal needs a signal
+      else if (tcp || tls) && steps.any (fun st => match st.op with
+          | .burst _ _ => true | _ => false) then none
+      else if !g && steps.any (fun st => match st.op with
+          | .burst _ j => j != 0 | _ => false) then none
       else some { graceful := g, age := ag, timeout := tmo, steps := steps, tcp := tcp, tls := tls }
     | _, _, _ => none
   | _ => none
@@ -330,6 +355,20 @@ def Sim.issue (m : Sim) (c : Nat) (chunks : List (List Item)) (req : Nat := 0) :
 
 def Sim.doOp (m : Sim) : Op → Sim
   | .conn => if m.tls then m.apply (.offerTls true false) else m.apply .offer
+  | .burst n j =>
+    let base := m.st.conns.length
+    -- all n are queued before the server runs again
+    let m := (burstOffers n).foldl Sim.apply m
+    if j == 0 then m else
+    -- `incoming` hands its queue to the accept loop in order: whatever is still queued ahead of
+    -- the burst (only possible after a non-quiescent step), then the first j of the burst …
+    let m := ((List.range base).filter m.wantAcc).foldl (fun m c => m.apply (.loopAccept c)) m
+    let m := ((burstAccepts base j).filter fun l => match l with
+      | .loopAccept c => m.wantAcc c | _ => true).foldl Sim.apply m
+    -- … and the hand-over of the j-th is what fires the signal (no hand-over, no signal)
+    match m.st.conns[base + j - 1]? with
+    | some cn => if cn.accepted then m.apply .sigFire else m
+    | none => m
   | .connStalled => m.apply (.offerTls false false)
   | .connBad => m.apply (.offerTls false true)
   | .hello c => m.apply (.clientHello c)
@@ -435,9 +474,19 @@ def groups (steps : List Step) : List Nat :=
 
 def isShutdownOp : Op → Bool
   | .sig | .endInc => true
+  -- a burst wired to the signal fires it
+  | .burst _ j => j != 0
+  | _ => false
+
+/-- the step fires the shutdown signal (by `G`, or by the hand-over of a burst's j-th connection) -/
+def firesSignal : Op → Bool
+  | .sig => true
+  | .burst _ j => j != 0
   | _ => false
 
 structure ConnInfo where
+  /-- the signal had fired before `incoming` could hand this connection to the accept loop: it was
+  offered after the signal, or it was queued behind the connection whose hand-over fired it -/
   afterSignal : Bool
   mustAccept : Bool
   group : Nat
@@ -458,13 +507,25 @@ def analyse (sc : Script) : List ConnInfo × List CallInfo :=
   let firstShutdownGroup : Option Nat := (sg.find? fun x => isShutdownOp x.1.op).map (·.2)
   let quietUpTo (g : Nat) : Bool := match firstShutdownGroup with | some h => g < h | none => true
   let idxd := sg.zipIdx
-  let conns : List ConnInfo := idxd.filterMap fun ((st, g), i) =>
-    let afterSig := (sc.steps.take i).any fun s => match s.op with | .sig => true | _ => false
+  -- index of the first step that asks for shutdown
+  let firstShutdownIdx : Option Nat := (idxd.find? fun x => isShutdownOp x.1.1.op).map (·.2)
+  let conns : List ConnInfo := idxd.flatMap fun ((st, g), i) =>
+    let afterSig := (sc.steps.take i).any fun s => firesSignal s.op
     match st.op with
-    | .conn => some { afterSignal := afterSig, mustAccept := quietUpTo g, group := g }
+    | .conn => [{ afterSignal := afterSig, mustAccept := quietUpTo g, group := g }]
     -- a client that does not (yet) complete a TLS handshake need not be accepted
-    | .connStalled | .connBad => some { afterSignal := afterSig, mustAccept := false, group := g }
-    | _ => none
+    | .connStalled | .connBad => [{ afterSignal := afterSig, mustAccept := false, group := g }]
+    | .burst n j =>
+      -- the first j connections of a burst wired to the signal are handed over BEFORE the signal
+      -- (they are served like any connection offered to a running server, provided nothing else
+      -- asks for shutdown at the same instant); the others are queued behind the one whose
+      -- hand-over fires the signal: by the time `incoming` could hand them over the signal is ready
+      let alone := firstShutdownIdx == some i
+        && !(idxd.any fun ((s', g'), i') => g' == g && i' != i && isShutdownOp s'.op)
+      (List.range n).map fun b =>
+        { afterSignal := afterSig || (j != 0 && b ≥ j),
+          mustAccept := quietUpTo g || (alone && b < j), group := g }
+    | _ => []
   -- virtual time (whole seconds) that has passed before step i
   let timeBefore (i : Nat) : Nat := ((sc.steps.take i).filterMap fun s =>
     match s.op with | .wait d => some d | _ => none).foldl (· + ·) 0
@@ -495,10 +556,9 @@ def analyse (sc : Script) : List ConnInfo × List CallInfo :=
     let waited := (sg.filterMap fun (s, g') =>
       match s.op with | .wait d => if g' ≤ g then some d else none | _ => none).foldl (· + ·) 0
     let disturbed := (sc.age && waited ≥ ageLimit) || (sg.zipIdx).any fun ((s, g'), i') =>
-      g' ≤ g && (match s.op with
-        | .sig | .endInc => true
+      g' ≤ g && (isShutdownOp s.op || (match s.op with
         | .dropConn c' => c' == c && i' < i
-        | _ => false)
+        | _ => false))
     let connOk := match conns[c]? with | some ci => ci.mustAccept | none => false
     -- request messages the response head waits for (client-streaming only)
     let r := match sc.steps[i]? with
